@@ -166,6 +166,36 @@ func (m *Mix) Establish(starter int) bool {
 	return m.A.C.IsEncrypted() && m.R.Encrypted
 }
 
+// EstablishNoisy is Establish on a network that also delivers, just before every Reveal Signature or Signature message
+// of the reference, a copy of it with one byte of its MAC changed: the copy is refused, and the genuine message behind
+// it must be accepted as if nothing had happened.
+func (m *Mix) EstablishNoisy(starter int) (bool, int) {
+	if starter == 0 {
+		m.fromA("QueryMessage", nil, nil, []otr3.ValidMessage{m.A.C.QueryMessage()}, nil, m.A.Snap(), false)
+	} else {
+		m.fromR(m.R.Query())
+	}
+	noise := 0
+	for n := 0; n < 200000 && (len(m.QtoA) > 0 || len(m.QtoR) > 0); n++ {
+		if len(m.QtoA) > 0 {
+			if t, ver := typeOf(m.QtoA[0]); ver != 0 && (t == ref.TypeRevealSig || t == ref.TypeSignature) {
+				if raw, ok2 := ref.Dearmor(m.QtoA[0]); ok2 && len(raw) > 30 {
+					bad := append([]byte{}, raw...)
+					bad[len(bad)-3] ^= 0x40
+					keep := len(m.QtoR)
+					m.AReceive(ref.Armor(bad))
+					m.QtoR = m.QtoR[:keep] // (whatever the refused copy was answered with is lost)
+					noise++
+				}
+			}
+			m.DeliverToA()
+		} else {
+			m.DeliverToR()
+		}
+	}
+	return m.A.C.IsEncrypted() && m.R.Encrypted, noise
+}
+
 // ---- C10 (peer part): two-way interoperation with the reference implementation ----
 
 type IopScript struct {
@@ -345,7 +375,13 @@ func runC10Interop(sc *IopScript) *sim.Outcome {
 			m.Settle(onA, onR)
 			old := m.A.C.GetSSID()
 			sim.Age(m.A.C, 3*60e9)
-			if !m.Establish(op.X & 1) {
+			if op.X&2 != 0 {
+				ok, noise := m.EstablishNoisy(op.X & 1)
+				if !ok {
+					return o.Fail("C10/interop-ake", "a key exchange inside a running session did not complete (started by %d) although every message of the reference arrived intact, each behind a damaged copy of itself (%d copies)", op.X&1, noise)
+				}
+				o.Class("refresh-behind-damaged-copies")
+			} else if !m.Establish(op.X & 1) {
 				return o.Fail("C10/interop-ake", "a key exchange inside a running session did not complete (started by %d)", op.X&1)
 			}
 			if got := m.A.C.GetSSID(); got != m.R.SSID {
@@ -575,8 +611,10 @@ func TestProp_C10_Interop(t *testing.T) {
 				op.S = rapid.SampledFrom([]string{"", "", "who?", "ünï"}).Draw(rt, "q")
 			case "endr":
 				op.X = rapid.IntRange(0, 63).Draw(rt, "how")
-			case "endo", "refresh":
+			case "endo":
 				op.X = rapid.IntRange(0, 1).Draw(rt, "starter")
+			case "refresh":
+				op.X = rapid.IntRange(0, 3).Draw(rt, "starter")
 			case "xko", "xkr":
 				op.X = rapid.IntRange(0, 1<<20).Draw(rt, "x")
 				op.S = rapid.SampledFrom([]string{"", "data", "\x01\x02"}).Draw(rt, "s")
@@ -652,6 +690,15 @@ func TestProp_C10_FragSweep(t *testing.T) {
 					}
 					sim.Judge(t, "C10fragsweep", &FragSweepCase{V: v, From: from, To: to, L: l})
 				}
+			}
+		}
+	}
+	// long texts (the encoded message is longer than two bytes can count), whole and in pieces of several sizes
+	for _, v := range []int{3, 2} {
+		for _, lf := range [][2]int{{49000, 2000}, {49500, 2001}, {66000, 1400}, {100000, 30000}, {70000, 0}, {52000, 65535}, {48989, 300}} {
+			idx++
+			if idx%sn == si {
+				sim.Judge(t, "C10fragsweep", &FragSweepCase{V: v, From: lf[1], To: lf[1], L: lf[0]})
 			}
 		}
 	}
